@@ -69,6 +69,9 @@ func qualifiedFuncName(f *ssa.Function) string {
 	if f == nil {
 		return ""
 	}
+	if old, ok := renamedTo[f]; ok {
+		return modPath + "/" + old
+	}
 	if f.Signature.Recv() != nil {
 		rt := f.Signature.Recv().Type()
 		if p, ok := rt.(*types.Pointer); ok {
